@@ -41,14 +41,14 @@ warnings.filterwarnings("ignore")
 
 TOL = 1e-9
 RULE = (
-    "gates: every registered gate at 12 (quick) / 200 (thorough) parameter tuples - rationals k/8, multiples of pi/2, large "
+    "gates: every registered gate at 8 (quick) / 200 (thorough) parameter tuples - rationals k/8, multiples of pi/2, large "
     "values - model tree evaluated vs implementation (1e-12), numeric unitarity, documented matrices; tracker: 60 / 2500 random "
     "gate programs on CircuitPermMPS, N in 2..6, exact comparison in Coq of circ.qubits and of the sites handed to "
     "gate_with_auto_swap after every gate (non-trivial: a two-qubit gate on non-adjacent sites); cache: 40 / 1200 random "
     "programs of gates / set_params / update_params_from / clear / copy / queries / sampler passes on Circuit with logging "
     "dicts, exact comparison of key lists, hit/miss events and _sample_n_gates after every operation (non-trivial: a query "
     "repeated across a mutation); light cone: 90 / 4500 (program, where) pairs, exact comparison of the selected gate numbers "
-    "(non-trivial: a SWAP in the program and a proper non-empty cone); oracle: 8 / 120 random programs on each of 14 "
+    "(non-trivial: a SWAP in the program and a proper non-empty cone); oracle: 6 / 120 random programs on each of 14 "
     "class x option configurations (+ ~120 targeted programs), every query answer vs a dense numpy reference (exact "
     "simulators 1e-9, MPS 1e-8, lazy MPS with default dm cutoff 1e-5, default complex64 marginals 1e-4), rejected gates "
     "must leave the simulator unchanged. distinct = distinct (stream, configuration, program) descriptions."
@@ -85,7 +85,7 @@ def gates_stage(ctx):
             ctx.broken_obligation(f"gate_registry:no_array:{name}", "registered gate without constant array or builder")
 
     rng = ctx.rng
-    nper = ctx.n(12, 200)
+    nper = ctx.n(8, 200)
     worst = 0.0
     for name in registered:
         nq = G.GATE_SIZE[name]
@@ -260,7 +260,7 @@ def inventory_stage(ctx):
             ctx.broken_obligation(f"inventory:uncovered_mutator:{tag}",
                                   f"{tag} changes self._psi / self._gates without changing num_gates or calling clear_storage ({r['why']})")
     # the covered ones as well (searcher for the inventory theorem / stale caches)
-    for m in ("set_params", "update_params_from", "apply_gate", "apply_gates"):
+    for m in ("set_params", "update_params_from", "apply_gate", "apply_gates", "apply_to_arrays", "register_named_params"):
         stale_scenario(ctx, m)
 
 
@@ -925,10 +925,10 @@ def run_program(ctx, cfg, N, prog, check_each_gate=True, stream="oracle"):
                 elif op["q"] == "compute_marginal" and isinstance(e, ZeroDivisionError) and cfg["exact"] and float(np.abs(
                         ref.marginal(op["where"], None if op["fix"] is None else {int(k): v for k, v in op["fix"].items()})).max()) < 1e-12:
                     key = "Circuit.compute_marginal:zero_probability_condition:nan_or_ZeroDivisionError"
+                elif op["q"] == "uni" and has_lazy_swap(circ) and (idle_wire(circ) or site_tag_lost(circ)):
+                    key = "Circuit.get_uni:site_tag_lost_after_SWAP"
                 elif op["q"] == "uni" and idle_wire(circ):
                     key = "Circuit.get_uni:idle_wire"
-                elif op["q"] == "uni" and site_tag_lost(circ):
-                    key = "Circuit.get_uni:site_tag_lost_after_SWAP"
                 elif op["q"] == "amplitude" and isinstance(e, ZeroDivisionError) and cfg["exact"] and abs(ref.psi[int(op["b"], 2)]) < 1e-12:
                     key = "Circuit.amplitude:zero_amplitude:nan_or_ZeroDivisionError"
                 else:
@@ -956,6 +956,10 @@ def has_tensorless_gate(circ):
 def _close(a, b, tol):
     a, b = np.asarray(a), np.asarray(b)
     return a.shape == b.shape and bool(np.allclose(a, b, atol=tol))
+
+
+def has_lazy_swap(circ):
+    return any(g.label == "SWAP" and not g.controls for g in circ.gates)
 
 
 def site_tag_lost(circ):
@@ -1012,12 +1016,12 @@ def run_query(ctx, cfg, circ, ref, q, N, viol, state):
         U = np.asarray(circ.get_uni(transposed=True).to_dense()) if q.get("transposed") else np.asarray(circ.uni.to_dense())
         want = ref.U.T if q.get("transposed") else ref.U
         if not close(U, want):
-            if idle_wire(circ):
+            if has_lazy_swap(circ) and (idle_wire(circ) or site_tag_lost(circ)):
+                viol("Circuit.get_uni:site_tag_lost_after_SWAP", f"{name}.uni.to_dense() has shape {U.shape}: after a lazily re-indexing SWAP "
+                     "the site tag of one qubit is no longer on a tensor of its wire, so the operator view drops / mislabels that site")
+            elif idle_wire(circ):
                 viol("Circuit.get_uni:idle_wire", f"{name}.uni has shape {U.shape} / differs from the product of the gate matrices: an "
                      "initial-state tensor sits directly on an output index (qubit without gate tensor), its identity wire is dropped")
-            elif site_tag_lost(circ):
-                viol("Circuit.get_uni:site_tag_lost_after_SWAP", f"{name}.uni.to_dense() has shape {U.shape}: after a lazily re-indexing SWAP "
-                     "no gate tensor carries the site tag of one qubit, so the operator view drops that site")
             else:
                 bad("unitary differs from the product of the gate matrices")
     elif kind == "psi":
@@ -1122,7 +1126,7 @@ def run_query(ctx, cfg, circ, ref, q, N, viol, state):
 def oracle_stage(ctx):
     C = configs()
     rng = ctx.rng
-    nprog = ctx.n(8, 120)
+    nprog = ctx.n(6, 120)
     ran = 0
     for name, cfg in C.items():
         for k in range(nprog):
@@ -1540,8 +1544,6 @@ def cache_stage(ctx):
                     descr.append("clear_storage")
                 elif r < 0.50:
                     circ = circ.copy()
-                    if not hasattr(circ, "_marginal_storage_size"):
-                        circ._marginal_storage_size = 0  # known finding CircuitBase.copy (reported by the oracle stream)
                     wrap(circ)
                     ops_coq.append(MUT_NOP)
                     descr.append("copy")
@@ -1715,8 +1717,9 @@ def run(ctx):
         "reduced density matrices, marginals, samples) are decided by the dense-reference oracle stream at 1e-9 (tests)",
     ]
     ctx.assumptions += [
-        "cache theorem: a mutator either completes or leaves the object unchanged (failure atomicity is tested, not proved); "
-        "m_append = 1 stands for 'at least one gate appended per change'; apply_to_arrays is found uncovered (known finding)",
+        "cache theorem: a mutator either completes, leaves the object unchanged, or clears the storage on its failure path "
+        "(set_params: try/finally, recognised by the scan; update_params_from raising half way is an open known finding; failure "
+        "atomicity of gates is tested, not proved); m_append = 1 stands for 'at least one gate appended per change'",
         "documented domain of the oracle: qubits in range and pairwise distinct, controls disjoint from targets, unitary raw "
         "matrices of the right shape, no truncation requested (default cutoff 1e-10); out-of-range qubits are accepted silently "
         "by Circuit / CircuitMPS (outside the domain, not reported)",
@@ -1743,7 +1746,7 @@ def run(ctx):
     else:
       ctx.check_props([
         "Base/Sums.vo", "C07/CMat.vo", "C07/GatesGen.vo", "C07/GateProofs.vo", "C07/Model.vo", "C07/Proofs.vo",
-        "C07/Mutators.vo", "C07/Inventory.vo", "C07/Ctrl.vo", "C07/LightconeModel.vo", "C07/Lightcone.vo", "C07/Props.v",
+        "C07/Ctrl.vo", "C07/LightconeModel.vo", "C07/Lightcone.vo", "C07/Mutators.vo", "C07/Inventory.vo", "C07/Props.v",
     ])
     PENDING.clear()
     timed(perm_stage)
